@@ -14,7 +14,7 @@ impl Property for C16 {
     type Scenario = Scenario;
 
     fn rule() -> String {
-        "the C06 workload and fault-plan generator (one TCP connection between seeded programs over the harness-owned wire: drops, delays, reordering, exhaustion; a sample of single-fault placements per fault-free workload) with the widest KernelConfig spread: MSS 1..1460 through mtu resp. loopback_mtu just above the header size, the other interface's MTU unrelated, send_buf_cap/recv_buf_cap independently from {1,2,3,5,8,13,16,31,64,...,65536} (below one MSS, below the transfer, asymmetric), IPv4/IPv6, cross-host / loopback / own address, poll_write and try_write writers, plus UDP size probes with payloads around mtu-ip_hdr-8 (equal, +1, -1, far beyond) to the other host and to loopback through every send path of the shim: send_to, try_send_to, and connect() followed by send / try_send; late readers keep receive queues and windows closed for long stretches. Monitors: every TCP segment seen on the wire: payload <= mtu(source interface) - ip_hdr - 20; every DATA segment: (offset of its last byte) - (highest acknowledgement the wire has delivered to that sender) <= window field of the last ACK-bearing segment the wire delivered to that sender; netstat of every host after the applications ran and after every delivery: recv_q <= recv_buf_cap, send_q <= send_buf_cap; every write call against the send-queue depth read just before it: parked / WouldBlock only when the queue is at the cap, accepted bytes <= free space, >= 1 byte accepted when there is free space; UDP: size <= limit => Ok(size), size > limit => Err and no oversized datagram on the wire. Non-trivial: a zero window was advertised or the send queue reached its cap at least once; distinct = distinct digests of (packet kind, fate, application outcome kind) sequences".into()
+        "the C06 workload and fault-plan generator (one TCP connection between seeded programs over the harness-owned wire: drops, delays, reordering, exhaustion; a sample of single-fault placements per fault-free workload) with the widest KernelConfig spread: MSS 1..1460 through mtu resp. loopback_mtu just above the header size, the other interface's MTU unrelated, send_buf_cap/recv_buf_cap independently from {1,2,3,5,8,13,16,31,64,...,65536} (below one MSS, below the transfer, asymmetric), IPv4/IPv6, cross-host / loopback / own address, poll_write and try_write writers, plus UDP size probes with payloads around mtu-ip_hdr-8 (equal, +1, -1, far beyond) to the other host and to loopback through every send path of the shim: send_to, try_send_to, and connect() followed by send / try_send; late readers keep receive queues and windows closed for long stretches. Monitors: every TCP segment seen on the wire: payload <= mtu(source interface) - ip_hdr - 20; every DATA segment: (offset of its last byte) - (highest acknowledgement the wire has delivered to that sender) <= window field of the last ACK-bearing segment the wire delivered to that sender; netstat of every host after the applications ran and after every delivery: recv_q <= recv_buf_cap, send_q <= send_buf_cap; every write call against the send-queue depth read just before it: parked / WouldBlock only when the queue is at the cap, accepted bytes <= free space, >= 1 byte accepted when there is free space; UDP: size <= limit => Ok(size), size > limit => Err and no oversized datagram on the wire. Non-trivial: a zero window was advertised or the send queue reached its cap at least once; distinct = distinct digests of (packet kind, fate, application outcome kind) sequences. Added later: a loopback side connection on the client host, opened first and kept busy, so that one egress pass segments for two interfaces with different MTUs; one-shot and abortive closes; loopback-bound UDP senders (oversize clause only).".into()
     }
     fn components_real() -> Vec<&'static str> {
         vec!["turmoil-net: kernel tcp.rs (poll_send, segmentation, window bookkeeping, receive-side admission), udp.rs (send size check), packet.rs header accounting, netstat, shim TcpStream/UdpSocket"]
